@@ -178,6 +178,7 @@ def run_leg(prop, tier, seed, leg, bins, logdir):
             env["GORACE"] = "halt_on_error=0 exitcode=0 log_path=%s" % race_prefix
         env.update(leg.get("env", {}))
         env["VERIF_LOGDIR"] = logdir
+        env["VERIF_RUN_ID"] = str(os.getpid())
         p = subprocess.Popen(cmd, cwd=VERIF, env=env, stdout=open(outf, "w"), stderr=open(errf, "w"))
         return (b, p, out, errf)
 
@@ -421,5 +422,16 @@ def main():
     return 2
 
 
+def _sweep_tmp():
+    # socket directories of workers the watchdog had to kill (a worker removes its own when it ends)
+    import glob, shutil, tempfile
+    for d in glob.glob(os.path.join(tempfile.gettempdir(), "vsock-%d-*" % os.getpid())):
+        shutil.rmtree(d, ignore_errors=True)
+
+
 if __name__ == "__main__":
-    sys.exit(main())
+    try:
+        rc = main()
+    finally:
+        _sweep_tmp()
+    sys.exit(rc)
